@@ -104,22 +104,44 @@ ERR_KIND = {'AssertionError': 'assertion', 'ValueError': 'value-error', 'DataInv
             'OverflowError': 'overflow-error', 'RuntimeError': 'runtime-error'}
 
 
+def n_arg(n, kind):
+    if n is None or kind in (None, 'pyint'):
+        return n
+    t = {'np.int64': np.int64, 'np.int32': np.int32, 'np.uint16': np.uint16, 'np.int8': np.int8}[kind]
+    return t(n) if np.iinfo(t).min <= n <= np.iinfo(t).max else np.int64(n)
+
+
 def call_jc(case):
-    """run the real joint_counts / matrix_bincount2d for one case; returns {'ok': nested list} or {'error': kind}"""
+    """run the real joint_counts / matrix_bincount2d for one case (twice, with the same array objects); returns
+    {'ok': table, 'dtype'} or {'error': kind}"""
     from enspara.info_theory import mutual_info, libinfo
     X = build_array(case['X'])
     Y = build_array(case['Y']) if case.get('Y') is not None else None
+    kind = case.get('n_kind')
+    nx, ny = n_arg(case.get('n_x'), kind), n_arg(case.get('n_y'), kind)
+    snap = (X.tobytes(), None if Y is None else Y.tobytes())
+
+    def once():
+        if case.get('entry') == 'kernel':
+            return libinfo.matrix_bincount2d(X, Y, nx, ny)
+        if case.get('argstyle') == 'kw':
+            return mutual_info.joint_counts(X=X, Y=Y, n_x=nx, n_y=ny)
+        if case.get('argstyle') == 'short' and Y is None and ny is None:
+            return mutual_info.joint_counts(X) if nx is None else mutual_info.joint_counts(X, n_x=nx)
+        return mutual_info.joint_counts(X, Y, nx, ny)
     try:
         with warnings.catch_warnings():
             warnings.simplefilter('ignore')
             with omp_threads(case.get('threads', 1)):
-                if case.get('entry') == 'kernel':
-                    jc = libinfo.matrix_bincount2d(X, Y, case['n_x'], case['n_y'])
-                else:
-                    jc = mutual_info.joint_counts(X, Y, case.get('n_x'), case.get('n_y'))
+                jc = once()
+                jc2 = once()
     except BaseException as e:  # noqa
         nm = type(e).__name__
         return {'error': ERR_KIND.get(nm, nm)}
+    if snap != (X.tobytes(), None if Y is None else Y.tobytes()):
+        return {'error': 'inputs-modified'}
+    if jc2 is jc or not np.array_equal(jc, jc2):
+        return {'error': 'second-call-differs'}
     return {'ok': jc, 'dtype': str(jc.dtype)}
 
 
@@ -246,9 +268,18 @@ def gen_jc_case(rng, idx):
         case['X']['one_d'] = True
     pad = int(rng.integers(0, 3))
     case['n_x'] = None if rng.random() < 0.35 else na + pad
+    case['argstyle'] = str(rng.choice(['pos', 'kw', 'short']))
+    case['n_kind'] = str(rng.choice(['pyint', 'np.int64', 'np.int32', 'np.uint16', 'np.int8']))
+    if rng.random() < 0.15 and T > 1:                 # a feature that never changes state
+        k = int(rng.integers(0, na))
+        for r in case['X']['rows']:
+            r[0] = k
     if self_mode:
         case['Y'] = None
-        case['n_y'] = None
+        # n_y given although Y is None: documented as unused (a warning), the table is (F, F, n_x, n_x)
+        case['n_y'] = None if rng.random() < 0.7 else int(rng.integers(1, 9))
+        if case['n_y'] is not None:
+            case['argstyle'] = 'kw'
     else:
         case['Y'] = {'rows': gen_table(rng, T, Fb, nb), 'T': T, 'F': Fb, 'dtype': dtb,
                      'layout': str(rng.choice(LAYOUTS))}
@@ -258,6 +289,56 @@ def gen_jc_case(rng, idx):
         if dta == dtb and rng.random() < 0.3 and not case['X'].get('one_d') and not case['Y'].get('one_d') \
                 and case['n_x'] is not None and case['n_y'] is not None:
             case['entry'] = 'kernel'
+    return case
+
+
+def gen_jc_special(rng, idx):
+    """size boundaries: state counts beyond the int8 / uint8 / int16 / uint16 ranges (ids near the top of the
+    declared range, dtypes that can hold them), many features (more than 255), a single frame"""
+    fam = ['big-n-x', 'big-n-y', 'big-n-self', 'many-features-x', 'many-features-y', 'big-n-x'][idx % 6]
+    T = int(rng.choice([1, 2, 5, 12]))
+    case = {'kind': 'jc', 'threads': int(rng.integers(1, 17)), 'special': fam,
+            'argstyle': str(rng.choice(['pos', 'kw'])), 'n_kind': str(rng.choice(['pyint', 'np.int64', 'np.int32']))}
+    if fam.startswith('big-n'):
+        n = int(rng.choice([128, 129, 255, 256, 257, 300, 32767, 32768, 32769, 65535, 65536, 65537, 70000]))
+        small = int(rng.integers(1, 4))
+        F1 = int(rng.integers(1, 3))
+        F2 = 1 if n > 1000 else int(rng.integers(1, 3))
+        ids = [n - 1, n - 2, 0, n // 2, 127, 128, 255, 256]
+        bigrows = [[int(min(n - 1, rng.choice(ids))) for _ in range(F1)] for _ in range(T)]
+        bigrows[0][0] = n - 1
+        dt_big = str(rng.choice(fitting_dtypes(n - 1)))
+        dt_small = str(rng.choice(DTYPES))
+        big = {'rows': bigrows, 'T': T, 'F': F1, 'dtype': dt_big, 'layout': str(rng.choice(LAYOUTS))}
+        sm = {'rows': gen_table(rng, T, F2, small), 'T': T, 'F': F2, 'dtype': dt_small,
+              'layout': str(rng.choice(LAYOUTS))}
+        default_n = rng.random() < 0.4
+        if fam == 'big-n-x':
+            case.update(X=big, Y=sm, n_x=None if default_n else n, n_y=small)
+        elif fam == 'big-n-y':
+            case.update(X=sm, Y=big, n_x=small, n_y=None if default_n else n)
+        else:
+            n = min(n, 300)                      # self table is (F, F, n, n)
+            big['rows'] = [[int(min(n - 1, v)) for v in r] for r in bigrows]
+            big['rows'][0][0] = n - 1
+            big['F'] = F1 = 1
+            big['rows'] = [r[:1] for r in big['rows']]
+            big['dtype'] = str(rng.choice(fitting_dtypes(n - 1)))
+            case.update(X=big, Y=None, n_x=None if default_n else n, n_y=None)
+        cells = F1 * (F1 if case['Y'] is None else F2) * n * (n if case['Y'] is None else small)
+        if cells > 5000:
+            case['wide'] = True                  # no MI loop over a huge table
+    else:
+        F = int(rng.choice([256, 257, 300]))
+        many = {'rows': gen_table(rng, T, F, 2), 'T': T, 'F': F, 'dtype': str(rng.choice(DTYPES)),
+                'layout': str(rng.choice(LAYOUTS))}
+        one = {'rows': gen_table(rng, T, 1, 3), 'T': T, 'F': 1, 'dtype': str(rng.choice(DTYPES)),
+               'layout': 'C'}
+        if fam == 'many-features-x':
+            case.update(X=many, Y=one, n_x=2, n_y=3)
+        else:
+            case.update(X=one, Y=many, n_x=3, n_y=2)
+        case['wide'] = True
     return case
 
 
@@ -455,68 +536,137 @@ import sys, json
 sys.path.insert(0, %r)
 from props import c18
 import numpy as np
-cases = json.load(open(sys.argv[1]))
-for i, c in enumerate(cases):
-    print('START %%d' %% i, flush=True)
-    if c.get('kind') == 'sweep':
-        r = {'sweep': c18.run_sweep(c)}
-    elif c.get('kind') == 'b1d':
-        r = c18.call_b1d(c)
-    else:
-        r = c18.call_jc(c)
-        if 'ok' in r:
-            jc = r['ok']
-            r = {'ok': jc.tolist() if jc.size <= 400000 else None, 'dtype': str(jc.dtype),
-                 'shape': list(jc.shape), 'total': int(jc.sum(dtype=np.uint64))}
-    print('RESULT %%d %%s' %% (i, json.dumps(r)), flush=True)
+print('READY', flush=True)
+for line in sys.stdin:
+    path = line.strip()
+    if not path:
+        continue
+    cases = json.load(open(path))
+    for i, c in enumerate(cases):
+        print('START %%d' %% i, flush=True)
+        if c.get('kind') == 'sweep':
+            r = {'sweep': c18.run_sweep(c)}
+        elif c.get('kind') == 'b1d':
+            r = c18.call_b1d(c)
+        else:
+            r = c18.call_jc(c)
+            if 'ok' in r:
+                jc = r['ok']
+                r = {'dtype': str(jc.dtype), 'shape': list(jc.shape), 'total': int(jc.sum(dtype=np.uint64))}
+                if jc.size <= 20000:
+                    r['ok'] = jc.tolist()
+                else:                   # big table: only the non-zero cells travel
+                    nz = np.argwhere(jc)
+                    r['ok'] = None
+                    r['nz'] = [list(map(int, ix)) + [int(jc[tuple(ix)])] for ix in nz]
+        print('RESULT %%d %%s' %% (i, json.dumps(r)), flush=True)
+    print('DONE', flush=True)
 ''' % os.path.dirname(HERE)
 
-
-CHILD_START_TIMEOUT = 180      # seconds until the child has imported enspara and started its first case
-CHILD_CASE_TIMEOUT = int(os.environ.get('C18_CASE_TIMEOUT', '60'))        # seconds for one small case (they take milliseconds)
+CHILD_START_TIMEOUT = 300      # seconds until the child has imported enspara (loaded machine: tens of seconds)
+CHILD_CASE_TIMEOUT = int(os.environ.get('C18_CASE_TIMEOUT', '60'))   # one small case (they take milliseconds)
 CHILD_SWEEP_TIMEOUT = 300      # seconds for one 16-thread sweep over a large table
 CHILD_MAX_FAILS = 4            # after that many crashes / hangs the remaining cases are not run
 
 
+class Worker:
+    '''one long-lived child process that executes batches of kernel calls (importing enspara costs seconds on a
+    loaded machine, so the child is reused until it crashes or hangs; it exits when its stdin closes)'''
+    current = None
+
+    def __init__(self):
+        import queue
+        import tempfile
+        import threading
+        self.errf = tempfile.TemporaryFile(mode='w+')
+        self.proc = subprocess.Popen([sys.executable, '-u', '-c', CHILD], stdin=subprocess.PIPE,
+                                     stdout=subprocess.PIPE, stderr=self.errf, text=True)
+        self.q = queue.Queue()
+
+        def reader(proc, q):
+            try:
+                for line in proc.stdout:
+                    q.put(line)
+            except Exception:  # noqa
+                pass
+            q.put(None)
+        threading.Thread(target=reader, args=(self.proc, self.q), daemon=True).start()
+        self.ready = False
+
+    def get(self, limit):
+        import queue
+        try:
+            return self.q.get(timeout=limit)
+        except queue.Empty:
+            return 'TIMEOUT'
+
+    def kill(self):
+        try:
+            self.proc.kill()
+        except Exception:  # noqa
+            pass
+        try:
+            rc = self.proc.wait(timeout=30)
+        except Exception:  # noqa
+            rc = None
+        try:
+            self.errf.seek(0)
+            err = self.errf.read()[-300:]
+            self.errf.close()
+        except Exception:  # noqa
+            err = ''
+        try:
+            self.proc.stdin.close()
+        except Exception:  # noqa
+            pass
+        Worker.current = None
+        return rc, err
+
+
 def _child_once(cases):
-    """run one child over `cases`; returns (results-by-index dict, failure) where failure is None or
-    (index of the case that was running | None, description)"""
-    import queue
+    '''run `cases` in the (re-used) child; returns (results-by-index dict, failure) where failure is None or
+    (index of the case that was running | None, description)'''
     import tempfile
-    import threading
+    res, started, failure = {}, None, None
+    try:
+        w = Worker.current or Worker()
+    except OSError as e:
+        return res, (None, 'could not start the child: %s' % e)
+    Worker.current = w
+    if not w.ready:
+        while True:
+            line = w.get(CHILD_START_TIMEOUT)
+            if line == 'TIMEOUT' or line is None:
+                rc, err = w.kill()
+                return res, (None, 'the child did not start (return code %s): %s' % (rc, err.strip()[-200:]))
+            if line.startswith('READY'):
+                w.ready = True
+                break
     fd, path = tempfile.mkstemp(prefix='c18_cases_', suffix='.json')
     with os.fdopen(fd, 'w') as f:
         json.dump(cases, f)
-    errf = tempfile.TemporaryFile(mode='w+')
-    res, started, failure = {}, None, None
     try:
-        proc = subprocess.Popen([sys.executable, '-c', CHILD, path], stdout=subprocess.PIPE, stderr=errf, text=True)
-    except OSError as e:
-        os.unlink(path)
-        return res, (None, 'could not start the child: %s' % e)
-    q = queue.Queue()
-
-    def reader():
         try:
-            for line in proc.stdout:
-                q.put(line)
-        except Exception:  # noqa
-            pass
-        q.put(None)
-    th = threading.Thread(target=reader, daemon=True)
-    th.start()
-    try:
+            w.proc.stdin.write(path + '\n')
+            w.proc.stdin.flush()
+        except Exception as e:  # noqa
+            rc, err = w.kill()
+            return res, (None, 'the child is gone (return code %s): %s %s' % (rc, e, err.strip()[-200:]))
         while True:
-            if started is None:
-                limit = CHILD_START_TIMEOUT
+            if started is None or started in res:
+                limit = CHILD_CASE_TIMEOUT
             else:
                 limit = CHILD_SWEEP_TIMEOUT if cases[started].get('kind') == 'sweep' else CHILD_CASE_TIMEOUT
-            try:
-                line = q.get(timeout=limit)
-            except queue.Empty:
+            line = w.get(limit)
+            if line == 'TIMEOUT':
+                w.kill()
                 failure = (started, 'no answer within %d s (hang)' % limit)
                 break
             if line is None:
+                rc, err = w.kill()
+                failure = (started, 'child ended with return code %s: %s' % (rc, err.strip()[-200:]))
+                break
+            if line.startswith('DONE'):
                 break
             if line.startswith('START '):
                 started = int(line.split()[1])
@@ -525,30 +675,17 @@ def _child_once(cases):
                 try:
                     res[int(i)] = json.loads(payload)
                 except ValueError:
+                    w.kill()
                     failure = (int(i), 'unreadable answer')
                     break
     finally:
-        try:
-            proc.kill()
-        except Exception:  # noqa
-            pass
-        try:
-            rc = proc.wait(timeout=30)
-        except Exception:  # noqa
-            rc = None
-        try:
-            errf.seek(0)
-            err = errf.read()[-300:]
-        except Exception:  # noqa
-            err = ''
-        errf.close()
         try:
             os.unlink(path)
         except OSError:
             pass
     if failure is None and len(res) < len(cases):
-        # the child ended (crashed) inside case `started`
-        failure = (started, 'child ended with return code %s: %s' % (rc, err.strip()[-200:]))
+        w.kill()
+        failure = (started, 'the child skipped cases')
     return res, failure
 
 
@@ -620,7 +757,22 @@ def jc_tags(case):
                 else 'explicit-n')
     if case.get('wide'):
         tags.append('wide-ids')
+    if case.get('special'):
+        tags.append('special=' + case['special'])
+    tags += ['args-' + case.get('argstyle', 'pos'), 'n-kind=' + case.get('n_kind', 'pyint')]
+    if case.get('Y') is None and case.get('n_y') is not None:
+        tags.append('self-with-unused-n_y')
     return tags
+
+
+def table_of(got):
+    """the table a child result carries (dense list, or the non-zero cells of a big table)"""
+    if got.get('ok') is not None:
+        return np.array(got['ok'], dtype=np.uint32).reshape(got['shape'])
+    jc = np.zeros(got['shape'], dtype=np.uint32)
+    for *ix, v in got['nz']:
+        jc[tuple(ix)] = v
+    return jc
 
 
 def check_jc_case(ctx, case, got, model):
@@ -642,7 +794,7 @@ def check_jc_case(ctx, case, got, model):
     if list(got['shape']) != list(ref.shape):
         ctx.violation('joint-count table shape %s != %s' % (list(got['shape']), list(ref.shape)), case)
         return None
-    jc = np.array(got['ok'], dtype=np.uint32).reshape(ref.shape)
+    jc = table_of(got)
     if not np.array_equal(jc.astype(np.int64), ref):
         bad = np.argwhere(jc.astype(np.int64) != ref)[0].tolist()
         ctx.violation('joint-count table differs from the number of frames at cell %s: got %d, expected %d'
@@ -761,7 +913,7 @@ def check_mi_laws(ctx, case, jc, tr, got2, model):
         ctx.violation('relabelled / frame-permuted valid stream raised %s' % got2['error'],
                       dict(case, stage='relabel', transformed=c2))
         return
-    jc2 = np.array(got2['ok'], dtype=np.uint32).reshape(got2['shape'])
+    jc2 = table_of(got2)
     expect = np.zeros_like(jc)
     for x in range(Fa):
         for y in range(Fb):
@@ -802,47 +954,131 @@ def make_transform(rng, case, shape):
     return {'case': c2, 'pa': pa, 'pb': pb}
 
 
-def gen_mi_matrix_case(rng):
+MM_CONTAINERS = ['list', 'tuple', 'ragged', 'ndarray3d']
+MM_NKINDS = ['list', 'tuple', 'int64', 'int8', 'uint8', 'int32', 'pyint', 'npint']
+
+
+def fitting_dtypes(maxval):
+    return [d for d in DTYPES if np.iinfo(np.dtype(d)).max >= maxval]
+
+
+def gen_mi_matrix_case(rng, idx=None):
     k = int(rng.integers(1, 5))
     Fa, Fb = int(rng.integers(1, 4)), int(rng.integers(1, 4))
     n_x = [int(rng.integers(2, 6)) for _ in range(Fa)]
     n_y = [int(rng.integers(2, 6)) for _ in range(Fb)]
-    dta, dtb = str(rng.choice(DTYPES)), str(rng.choice(DTYPES))
+    big = idx is not None and idx % 5 == 0
+    if big:        # a state count beyond the int8 / uint8 range on one side (ids near the top are visited)
+        n_x[int(rng.integers(0, Fa))] = int(rng.choice([128, 129, 200, 255, 256, 257, 300]))
+    container = MM_CONTAINERS[idx % 4] if idx is not None else 'list'
+    dta = str(rng.choice(fitting_dtypes(max(n_x) - 1)))
+    dtb = str(rng.choice(DTYPES))
     trajs = []
+    T0 = int(rng.integers(1, 25))
+    const_feature = rng.random() < 0.2
     for _ in range(k):
-        T = int(rng.integers(1, 25))
-        X = [[int(rng.integers(0, n_x[f])) for f in range(Fa)] for _ in range(T)]
+        T = T0 if container == 'ndarray3d' else int(rng.integers(1, 25))
+        X = [[int(rng.integers(0, n_x[f])) if n_x[f] < 100 else int(n_x[f] - 1 - rng.integers(0, 3))
+              for f in range(Fa)] for _ in range(T)]
         Y = [[int(rng.integers(0, n_y[f])) for f in range(Fb)] for _ in range(T)]
         if rng.random() < 0.4 and Fa == Fb:       # correlated sides
             Y = [[min(X[t][f], n_y[f] - 1) for f in range(Fb)] for t in range(T)]
-        trajs.append({'X': {'rows': X, 'T': T, 'F': Fa, 'dtype': dta, 'layout': str(rng.choice(LAYOUTS))},
-                      'Y': {'rows': Y, 'T': T, 'F': Fb, 'dtype': dtb, 'layout': str(rng.choice(LAYOUTS))}})
-    scalar = rng.random() < 0.25
+        if const_feature:                         # a feature that never changes state
+            for r in Y:
+                r[0] = n_y[0] - 1
+        lay = ['C', 'C'] if container in ('ragged', 'ndarray3d') else [str(rng.choice(LAYOUTS)) for _ in range(2)]
+        trajs.append({'X': {'rows': X, 'T': T, 'F': Fa, 'dtype': dta, 'layout': lay[0]},
+                      'Y': {'rows': Y, 'T': T, 'F': Fb, 'dtype': dtb, 'layout': lay[1]}})
+    n_kind = MM_NKINDS[(idx // 4) % len(MM_NKINDS)] if idx is not None else 'list'
+    if max(n_x) > 127 and n_kind == 'int8':
+        n_kind = 'int32'
+    if max(n_x) > 255 and n_kind == 'uint8':
+        n_kind = 'int64'
+    scalar = n_kind in ('pyint', 'npint')
     return {'kind': 'mi_matrix', 'trajs': trajs, 'n_x': max(n_x) if scalar else n_x,
-            'n_y': max(n_y) if scalar else n_y, 'threads': int(rng.integers(1, 17))}
+            'n_y': max(n_y) if scalar else n_y, 'threads': int(rng.integers(1, 17)),
+            'container': container, 'n_kind': n_kind, 'argstyle': str(rng.choice(['pos', 'kw']))}
+
+
+def mm_args(case):
+    from enspara import ra
+    Xs = [build_array(t['X']) for t in case['trajs']]
+    Ys = [build_array(t['Y']) for t in case['trajs']]
+    cont = case.get('container', 'list')
+    if cont == 'tuple':
+        CX, CY = tuple(Xs), tuple(Ys)
+    elif cont == 'ragged':
+        CX = ra.RaggedArray(array=np.concatenate(Xs), lengths=[len(x) for x in Xs])
+        CY = ra.RaggedArray(array=np.concatenate(Ys), lengths=[len(y) for y in Ys])
+    elif cont == 'ndarray3d':
+        CX, CY = np.stack(Xs), np.stack(Ys)
+    else:
+        CX, CY = Xs, Ys
+    kind = case.get('n_kind', 'list')
+
+    def conv(n):
+        if kind == 'pyint' or not isinstance(n, list):
+            return np.int64(n) if kind == 'npint' else int(n)
+        if kind == 'tuple':
+            return tuple(n)
+        if kind == 'list':
+            return list(n)
+        return np.array(n, dtype=kind)
+    return Xs, Ys, CX, CY, conv(case['n_x']), conv(case['n_y'])
 
 
 def check_mi_matrix(ctx, case, model):
     from enspara.info_theory import mutual_info
-    Xs = [build_array(t['X']) for t in case['trajs']]
-    Ys = [build_array(t['Y']) for t in case['trajs']]
-    n_x, n_y = case['n_x'], case['n_y']
-    mx = int(np.max(n_x))
-    my = int(np.max(n_y))
+    Xs, Ys, CX, CY, n_x, n_y = mm_args(case)
+    mx = int(np.max(case['n_x']))
+    my = int(np.max(case['n_y']))
     ctx.case(case, nontrivial=True, tags=['mi_matrix', 'trajs=%d' % len(Xs),
-                                          'n-scalar' if not isinstance(n_x, list) else 'n-vector'])
+                                          'trajs-container=' + case.get('container', 'list'),
+                                          'n-kind=' + case.get('n_kind', 'list'),
+                                          'n>127' if max(mx, my) > 127 else 'n<=127',
+                                          'args-' + case.get('argstyle', 'pos')])
+
+    def mm(normalize):
+        if case.get('argstyle') == 'kw':
+            return np.asarray(mutual_info.mi_matrix(Xs=CX, Ys=CY, n_x=n_x, n_y=n_y, normalize=normalize))
+        return np.asarray(mutual_info.mi_matrix(CX, CY, n_x, n_y, normalize))
+    snap = [a.tobytes() for a in Xs + Ys]
     try:
         with warnings.catch_warnings():
             warnings.simplefilter('ignore')
             with omp_threads(case['threads']):
-                raw = np.asarray(mutual_info.mi_matrix(Xs, Ys, n_x, n_y, normalize=False))
-                nrm = np.asarray(mutual_info.mi_matrix(Xs, Ys, n_x, n_y, normalize=True))
+                # the first trajectory's table, handed to the caller BEFORE mi_matrix accumulates in place
+                first = mutual_info.joint_counts(Xs[0], Ys[0], mx, my)
+                first_copy = first.copy()
+                raw = mm(False)
+                nrm = mm(True)
+                raw2 = mm(False)                  # same argument objects again
+                first_again = mutual_info.joint_counts(Xs[0], Ys[0], mx, my)
                 pooled_jc = mutual_info.joint_counts(np.concatenate([np.asarray(x) for x in Xs]),
                                                      np.concatenate([np.asarray(y) for y in Ys]), mx, my)
+                pj_snap = pooled_jc.tobytes()
                 pooled = np.asarray(mutual_info.mutual_information(pooled_jc))
+                # the same table as int64 with every count multiplied by a large constant, and as floats
+                scaled = np.asarray(mutual_info.mutual_information(pooled_jc.astype(np.int64) * 1000003))
+                asfloat = np.asarray(mutual_info.mutual_information(pooled_jc.astype(float)))
     except BaseException as e:  # noqa
-        ctx.violation('mi_matrix on valid trajectories raised %s' % type(e).__name__, case)
+        ctx.violation('mi_matrix on valid trajectories raised %s: %s' % (type(e).__name__, str(e)[:80]), case)
         return
+    if snap != [a.tobytes() for a in Xs + Ys] or pj_snap != pooled_jc.tobytes():
+        ctx.violation('mi_matrix / mutual_information modified its arguments', case)
+        return
+    if not np.array_equal(first, first_copy) or not np.array_equal(first, first_again):
+        ctx.violation('the joint-count table of the first trajectory changed after mi_matrix accumulated the others',
+                      case)
+        return
+    if not np.array_equal(raw, raw2):
+        ctx.violation('mi_matrix called twice with the same argument objects gave different results', case)
+        return
+    if not np.allclose(scaled, pooled, rtol=TOL, atol=TOL) or not np.allclose(asfloat, pooled, rtol=TOL, atol=TOL):
+        ctx.violation('mutual_information depends on the count dtype / a common factor of the counts '
+                      '(uint32 vs int64 x 1000003 vs float64)', case)
+        return
+    n_x, n_y = case['n_x'], case['n_y']
     Xc = np.concatenate([np.array(t['X']['rows'], dtype=np.int64).reshape(t['X']['T'], t['X']['F'])
                          for t in case['trajs']])
     Yc = np.concatenate([np.array(t['Y']['rows'], dtype=np.int64).reshape(t['Y']['T'], t['Y']['F'])
@@ -868,18 +1104,24 @@ def check_mi_matrix(ctx, case, model):
                 ctx.violation('normalised mi_matrix entry (%d,%d) = %r is not mi / log(min(n_x[i], n_y[j])) = %r'
                               % (x, y, float(nrm[x, y]), want), rc)
                 return
-            if 'ok' in model and not disagreed:
+            if model is not None and 'ok' in model and not disagreed:
                 mv = eval_terms(model['ok']['terms'][x][y])
                 if not close(mv, float(raw[x, y])):
                     ctx.disagreement('Model.Info.miMatrixCounts terms vs mi_matrix: %r vs %r'
                                      % (mv, float(raw[x, y])), rc)
                     disagreed = True
-    if 'ok' not in model or model['ok']['jc'] != pooled_jc.tolist():
+    if model is not None and ('ok' not in model or model['ok']['jc'] != pooled_jc.tolist()):
         ctx.disagreement('Model.Info.miMatrixCounts pooled table vs joint_counts of the concatenation',
                          dict(case, model=_short(model)))
 
 
-def gen_wmi_case(rng):
+WMI_MODES = ['uniform', 'uniform-unnormalised', 'random', 'random-with-zeros', 'uniform-scaled-1e-9',
+             'uniform-scaled-1e9', 'uniform-scaled-1e-300', 'random-scaled-1e9', 'one-hot', 'int-weights',
+             'int-weights-sum-1']
+WMI_CONTAINERS = ['ndarray', 'list', 'tuple', 'float32']
+
+
+def gen_wmi_case(rng, idx=None):
     T = int(rng.integers(1, 25))
     F = int(rng.integers(1, 4))
     n = int(rng.integers(2, 5))
@@ -887,38 +1129,111 @@ def gen_wmi_case(rng):
     if F >= 2 and rng.random() < 0.4:
         for r in rows:
             r[1] = r[0]
-    mode = str(rng.choice(['uniform', 'uniform-unnormalised', 'random', 'random-with-zeros']))
+    if rng.random() < 0.2:                      # a feature that never changes state
+        k = int(rng.integers(0, n))
+        for r in rows:
+            r[0] = k
+    mode = WMI_MODES[idx % len(WMI_MODES)] if idx is not None else str(rng.choice(WMI_MODES[:4]))
     if mode == 'uniform':
         w = [1.0 / T] * T
     elif mode == 'uniform-unnormalised':
         w = [float(rng.choice([0.5, 1.0, 3.0]))] * T
+    elif mode.startswith('uniform-scaled'):
+        w = [{'uniform-scaled-1e-9': 1e-9, 'uniform-scaled-1e9': 1e9, 'uniform-scaled-1e-300': 1e-300}[mode]] * T
+    elif mode == 'one-hot':
+        w = [0.0] * T
+        w[int(rng.integers(0, T))] = float(rng.choice([1.0, 0.25, 7.0]))
+    elif mode == 'int-weights':
+        w = [int(v) for v in rng.integers(0, 4, size=T)]
+        if sum(w) in (0, 1):
+            w[0] += 2
+    elif mode == 'int-weights-sum-1':
+        w = [0] * T
+        w[int(rng.integers(0, T))] = 1
     else:
         w = [float(v) for v in rng.random(T)]
         if mode == 'random-with-zeros' and T > 1:
             w[int(rng.integers(0, T))] = 0.0
         if sum(w) == 0:
             w[0] = 1.0
+        if mode == 'random-scaled-1e9':
+            w = [v * 1e9 for v in w]
+    container = 'ndarray' if idx is None else WMI_CONTAINERS[(idx // len(WMI_MODES)) % len(WMI_CONTAINERS)]
+    if mode.startswith('int-weights'):
+        container = str(rng.choice(['ndarray', 'list', 'tuple']))
+    if mode == 'uniform-scaled-1e-300' and container == 'float32':
+        container = 'ndarray'                   # 1e-300 is 0 in single precision: not a weight vector
+    if container == 'float32':
+        w = [float(np.float32(v)) for v in w]          # the model sees exactly the float32 values
     nfs = None if rng.random() < 0.3 else [n + int(rng.integers(0, 2)) for _ in range(F)]
+    dtype = str(rng.choice(['int64', 'int32', 'int16', 'int8', 'uint8', 'uint64', 'bool']))
+    if dtype == 'bool':
+        rows = [[min(v, 1) for v in r] for r in rows]
+        n = 2
+        nfs = None if nfs is None else [2 + int(rng.integers(0, 2)) for _ in range(F)]
     return {'kind': 'wmi', 'rows': rows, 'T': T, 'F': F, 'n': n, 'w': w, 'nfs': nfs, 'mode': mode,
-            'dtype': str(rng.choice(['int64', 'int32', 'int16', 'int8', 'uint8']))}
+            'dtype': dtype, 'container': container,
+            'nfs_kind': str(rng.choice(['list', 'tuple', 'int64', 'int8', 'uint16'])),
+            'argstyle': str(rng.choice(['pos', 'kw']))}
+
+
+def wmi_args(case):
+    X = np.array(case['rows'], dtype=case['dtype']).reshape(case['T'], case['F'])
+    cont = case.get('container', 'ndarray')
+    if cont == 'list':
+        w = list(case['w'])
+    elif cont == 'tuple':
+        w = tuple(case['w'])
+    elif cont == 'float32':
+        w = np.array(case['w'], dtype=np.float32)
+    else:
+        w = np.array(case['w'])           # float64, or an integer array for integer weights
+    nfs = case['nfs']
+    if nfs is not None:
+        k = case.get('nfs_kind', 'list')
+        nfs = list(nfs) if k == 'list' else (tuple(nfs) if k == 'tuple' else np.array(nfs, dtype=k))
+    return X, w, nfs
+
+
+def call_wmi(case, X, w, nfs, normalize):
+    from enspara.info_theory import mutual_info
+    if case.get('argstyle') == 'kw':
+        return np.asarray(mutual_info.weighted_mi(features=X, weights=w, n_feature_states=nfs, normalize=normalize))
+    return np.asarray(mutual_info.weighted_mi(X, w, nfs, normalize))
 
 
 def check_wmi(ctx, case, model):
     from enspara.info_theory import mutual_info
-    X = np.array(case['rows'], dtype=case['dtype']).reshape(case['T'], case['F'])
-    w = np.array(case['w'], dtype=float)
+    X, w, nfs = wmi_args(case)
+    tol = 1e-5 if case.get('container') == 'float32' else TOL      # float32 weights: eps 6e-8 times a few sums
     ctx.case(case, nontrivial=case['T'] > 1, tags=['weighted_mi', 'weights=' + case['mode'],
-                                                    'nfs-default' if case['nfs'] is None else 'nfs-given'])
+                                                    'weights-container=' + case.get('container', 'ndarray'),
+                                                    'features-dtype=' + case['dtype'],
+                                                    'nfs-default' if case['nfs'] is None else
+                                                    'nfs-' + case.get('nfs_kind', 'list'),
+                                                    'args-' + case.get('argstyle', 'pos')])
+    snap = (X.tobytes(), repr(w) if not isinstance(w, np.ndarray) else w.tobytes())
     try:
         with warnings.catch_warnings():
             warnings.simplefilter('ignore')
-            raw = np.asarray(mutual_info.weighted_mi(X, w, case['nfs'], normalize=False))
+            raw = call_wmi(case, X, w, nfs, False)
             nrm = None
-            states = case['nfs'] if case['nfs'] is not None else [int(X.max()) + 1] * case['F']
+            states = list(case['nfs']) if case['nfs'] is not None else [int(X.max()) + 1] * case['F']
             if min(states) >= 2:
-                nrm = np.asarray(mutual_info.weighted_mi(X, w, case['nfs'], normalize=True))
+                nrm = call_wmi(case, X, w, nfs, True)
+            again = call_wmi(case, X, w, nfs, False)        # same argument objects, second call
     except BaseException as e:  # noqa
-        ctx.violation('weighted_mi on a valid weighted sample raised %s: %s' % (type(e).__name__, str(e)[:80]), case)
+        # integer weights that sum to exactly 1 (a one-hot distribution given as ints): the code keeps them
+        # integer and np.divide(..., out=<int array>) raises (known finding)
+        key = 'weighted-int-weights-sum-1' if case['mode'] == 'int-weights-sum-1' else None
+        ctx.violation('weighted_mi on a valid weighted sample raised %s: %s' % (type(e).__name__, str(e)[:80]),
+                      case, key=key)
+        return
+    if snap != (X.tobytes(), repr(w) if not isinstance(w, np.ndarray) else w.tobytes()):
+        ctx.violation('weighted_mi modified its arguments', case)
+        return
+    if not np.array_equal(raw, again):
+        ctx.violation('weighted_mi called twice with the same argument objects gave different results', case)
         return
     F = case['F']
     if raw.shape != (F, F):
@@ -934,17 +1249,17 @@ def check_wmi(ctx, case, model):
             if not (v >= -1e-12):
                 ctx.violation('weighted mutual information is negative: %r' % v, rc)
                 return
-            if not close(v, float(raw[g, f])):
+            if not close(v, float(raw[g, f]), tol):
                 ctx.violation('weighted mutual information is not symmetric', rc)
                 return
             if 'ok' in model and not disagreed:
                 mv = max(0.0, eval_terms(model['ok']['terms'][f][g]))
-                if not close(mv, v):
+                if not close(mv, v, tol):
                     ctx.disagreement('Model.Info.weightedMi terms vs weighted_mi: %r vs %r' % (mv, v), rc)
                     disagreed = True
             if nrm is not None:
                 want = v / math.log(min(states[f], states[g]))
-                if not close(float(nrm[f, g]), want):
+                if not close(float(nrm[f, g]), want, tol):
                     ctx.violation('normalised weighted_mi entry %r is not mi / log(min(n_i, n_j)) = %r'
                                   % (float(nrm[f, g]), want), rc)
                     return
@@ -952,11 +1267,12 @@ def check_wmi(ctx, case, model):
         # the weighted estimator under uniform weights = the counts-based estimator
         n = max(states)
         ok, cm = guarded(ctx, 'mutual_information(joint_counts(X))', case,
-                         lambda: np.asarray(mutual_info.mutual_information(mutual_info.joint_counts(X, n_x=n))))
+                         lambda: np.asarray(mutual_info.mutual_information(
+                             mutual_info.joint_counts(X.astype(np.int8) if X.dtype == bool else X, n_x=n))))
         if not ok:
             return
         ctx.tag('weighted-uniform-vs-counts')
-        if not np.allclose(cm, raw, rtol=TOL, atol=TOL):
+        if not np.allclose(cm, raw, rtol=tol, atol=tol):
             ctx.violation('weighted_mi under uniform weights differs from the counts-based mutual information: '
                           'max diff %r' % float(np.abs(cm - raw).max()), case)
 
@@ -965,17 +1281,29 @@ def gen_ccn_case(rng, idx):
     r, c = int(rng.integers(1, 6)), int(rng.integers(1, 6))
     if idx % 3 == 0 and r == c:
         c = r + 1
-    mi = [[float(v) for v in row] for row in rng.random((r, c))]
+    scale = [1.0, 1.0, 1e-9, 1e9, 1e-300, 1e300][idx % 6]       # entries at every magnitude: compared relatively
+    mi = [[float(v) * scale for v in row] for row in rng.random((r, c))]
     nx = [int(rng.integers(2, 9)) for _ in range(r)]
     ny = [int(rng.integers(2, 9)) for _ in range(c)]
     case = {'kind': 'ccn', 'mi': mi, 'rows': r, 'cols': c, 'n_x': nx, 'n_y': ny, 'bad': None,
             'nx_dtype': None if rng.random() < 0.5 else str(rng.choice(DTYPES)),
-            'ny_dtype': None if rng.random() < 0.5 else str(rng.choice(DTYPES))}
+            'ny_dtype': None if rng.random() < 0.5 else str(rng.choice(DTYPES)),
+            'container': str(rng.choice(['ndarray', 'list', 'tuple'])), 'scale': scale,
+            'order': str(rng.choice(['C', 'F']))}
+    if idx % 4 == 1:
+        # state counts beyond the int8 / uint8 / int16 ranges, in dtypes that can hold them
+        big = [127, 128, 129, 255, 256, 257, 300, 32767, 32768, 65535, 65536, 70000]
+        nx[int(rng.integers(0, r))] = int(rng.choice(big))
+        ny[int(rng.integers(0, c))] = int(rng.choice(big))
+        case['nx_dtype'] = None if rng.random() < 0.3 else str(rng.choice(fitting_dtypes(max(nx))))
+        case['ny_dtype'] = None if rng.random() < 0.3 else str(rng.choice(fitting_dtypes(max(ny))))
     u = rng.random()
     if u < 0.15:
         case['n_x'] = int(rng.integers(2, 9))
+        case['nx_scalar'] = str(rng.choice(['pyint', 'np.int64', 'np.int8']))
     elif u < 0.3:
         case['n_y'] = int(rng.integers(2, 9))
+        case['ny_scalar'] = str(rng.choice(['pyint', 'np.int64', 'np.uint8']))
     elif u < 0.4:
         case['bad'] = 'length'
         if rng.random() < 0.5:
@@ -984,8 +1312,9 @@ def gen_ccn_case(rng, idx):
             case['n_y'] = ny[:-1] if c > 1 else ny + [2]
     elif u < 0.5:
         case['bad'] = 'n<2'
-        case['nx_dtype'] = case['nx_dtype'] if case['nx_dtype'] in ('int8', 'int16', 'int32', 'int64') else None
-        case['ny_dtype'] = case['ny_dtype'] if case['ny_dtype'] in ('int8', 'int16', 'int32', 'int64') else None
+        signed_ok = ('int8', 'int16', 'int32', 'int64') if max(max(nx), max(ny)) <= 127 else ('int32', 'int64')
+        case['nx_dtype'] = case['nx_dtype'] if case['nx_dtype'] in signed_ok else None
+        case['ny_dtype'] = case['ny_dtype'] if case['ny_dtype'] in signed_ok else None
         if rng.random() < 0.5:
             case['n_x'] = [int(rng.choice([1, 0, -1]))] + nx[1:]
         else:
@@ -993,19 +1322,34 @@ def gen_ccn_case(rng, idx):
     return case
 
 
+def ccn_states(n, dtype, container, scalar_kind):
+    if not isinstance(n, list):
+        return {'np.int64': np.int64, 'np.int8': np.int8, 'np.uint8': np.uint8}.get(scalar_kind, int)(n)
+    if dtype is not None or container == 'ndarray':
+        return np.array(n, dtype=dtype)
+    return tuple(n) if container == 'tuple' else list(n)
+
+
 def check_ccn(ctx, case, model):
     from enspara.info_theory import mutual_info
     mi = np.array(case['mi'], dtype=float).reshape(case['rows'], case['cols'])
+    if case.get('order') == 'F':
+        mi = np.asfortranarray(mi)
     before = mi.copy()
     ctx.case(case, nontrivial=True, tags=['ccn', 'ccn-' + (case['bad'] or 'valid'),
-                                          'rows!=cols' if case['rows'] != case['cols'] else 'rows=cols'])
+                                          'rows!=cols' if case['rows'] != case['cols'] else 'rows=cols',
+                                          'ccn-scale=%g' % case.get('scale', 1.0),
+                                          'ccn-n>255' if max(np.max(case['n_x']), np.max(case['n_y'])) > 255
+                                          else 'ccn-n<=255'])
     nx, ny = case['n_x'], case['n_y']
+    ax = ccn_states(nx, case.get('nx_dtype'), case.get('container', 'ndarray'), case.get('nx_scalar'))
+    ay = ccn_states(ny, case.get('ny_dtype'), case.get('container', 'ndarray'), case.get('ny_scalar'))
+    snap = (repr(ax), repr(ay))
     try:
         with warnings.catch_warnings():
             warnings.simplefilter('ignore')
-            out = np.asarray(mutual_info.channel_capacity_normalization(
-                mi, np.array(nx, dtype=case.get('nx_dtype')) if isinstance(nx, list) else nx,
-                np.array(ny, dtype=case.get('ny_dtype')) if isinstance(ny, list) else ny))
+            out = np.asarray(mutual_info.channel_capacity_normalization(mi, ax, ay))
+            out2 = np.asarray(mutual_info.channel_capacity_normalization(mi=mi, n_x=ax, n_y=ay))
         got = {'ok': out}
     except BaseException as e:  # noqa
         got = {'error': ERR_KIND.get(type(e).__name__, type(e).__name__)}
@@ -1024,14 +1368,18 @@ def check_ccn(ctx, case, model):
     if out.shape != mi.shape:
         ctx.violation('channel_capacity_normalization changed the shape', case)
         return
+    if not np.array_equal(mi, before) or snap != (repr(ax), repr(ay)) or not np.array_equal(out, out2):
+        ctx.violation('channel_capacity_normalization modified its arguments / gave a different result on the '
+                      'second call with the same objects', case)
+        return
     # (the state-count vectors come in every integer dtype: the log must be taken in double precision)
-    gdt = np.result_type(np.array(nx, dtype=case.get('nx_dtype')) if isinstance(nx, list) else np.dtype(int),
-                         np.array(ny, dtype=case.get('ny_dtype')) if isinstance(ny, list) else np.dtype(int))
+    gdt = np.result_type(np.asarray(ax).dtype, np.asarray(ay).dtype)
     ctx.tag('ccn-grid-dtype=%s' % gdt)
     for i in range(case['rows']):
         for j in range(case['cols']):
             want = before[i, j] / math.log(min(nxv[i], nyv[j]))
-            if not close(float(out[i, j]), want):
+            # one division of doubles: relative to the entry's own scale (entries range from 1e-300 to 1e300)
+            if abs(float(out[i, j]) - want) > 1e-12 * abs(want):
                 ctx.violation('normalised entry (%d,%d) = %r is not mi / log(min(n_x[%d], n_y[%d])) = %r '
                               '(state-count dtype %s)' % (i, j, float(out[i, j]), i, j, want, gdt),
                               dict(case, cell=[i, j]))
@@ -1050,44 +1398,102 @@ def gen_dist(rng, n, zeros=True):
     return [float(v) for v in p]
 
 
-def gen_kl_case(rng):
+KL_FAMILIES = ['equal', 'near', 'different', 'different', 'near-1e-6', 'near-1e-9', 'tiny-entries', 'denormal',
+               'one-hot', 'equal-tiny', 'different']
+KL_CONTAINERS = ['ndarray', 'list', 'tuple', 'float32']
+
+
+def gen_kl_case(rng, idx=None):
     n = int(rng.integers(1, 7))
     P = gen_dist(rng, n)
-    u = rng.random()
-    if u < 0.2:
-        Q, rel = list(P), 'equal'
-    elif u < 0.3:
+    rel = KL_FAMILIES[idx % len(KL_FAMILIES)] if idx is not None else 'different'
+    container = KL_CONTAINERS[(idx // len(KL_FAMILIES)) % 4] if idx is not None else 'ndarray'
+    if rel == 'equal':
+        Q = list(P)
+    elif rel == 'near':
         Q = [float(v) for v in (np.array(P) * (1 - 1e-13) + 1e-13 / n)]
-        rel = 'near'
+    elif rel in ('near-1e-6', 'near-1e-9'):
+        n = max(n, 2)
+        P = gen_dist(rng, n, zeros=False)
+        eps = 1e-6 if rel == 'near-1e-6' else 1e-9
+        q = np.array(P) * (1 + eps * rng.choice([-1.0, 1.0], size=n) * (0.5 + rng.random(n)))
+        Q = [float(v) for v in q / q.sum()]
+        container = 'ndarray'
+    elif rel in ('tiny-entries', 'denormal', 'equal-tiny'):
+        # some probabilities at the 1e-300 / denormal scale (the rest carries the mass)
+        n = max(n, 2)
+        tiny = 5e-324 if rel == 'denormal' else float(rng.choice([1e-300, 1e-200, 2.5e-308]))
+        P = gen_dist(rng, n, zeros=False)
+        Q = gen_dist(rng, n, zeros=False)
+        def with_tiny(D, i, v):
+            rest = sum(x for k, x in enumerate(D) if k != i)
+            return [v if k == i else x / rest for k, x in enumerate(D)]     # still sums to 1 (v << 1e-16)
+        P = with_tiny(P, int(rng.integers(0, n)), tiny)
+        if rng.random() < 0.5:
+            Q = with_tiny(Q, int(rng.integers(0, n)), tiny * float(rng.choice([1.0, 3.0])))
+        if rel == 'equal-tiny':
+            Q = list(P)
+        container = container if container != 'float32' else 'ndarray'
+    elif rel == 'one-hot':
+        P = [0.0] * n
+        P[int(rng.integers(0, n))] = 1.0
+        if rng.random() < 0.5:
+            Q = list(P)
+        else:
+            Q = gen_dist(rng, n, zeros=False)
+        if rng.random() < 0.3:
+            P = [int(v) for v in P]               # integer one-hot vectors
+            container = 'list'
     else:
-        Q, rel = gen_dist(rng, n, zeros=rng.random() < 0.3), 'different'
+        Q = gen_dist(rng, n, zeros=rng.random() < 0.3)
+    if container == 'float32':
+        P = [float(np.float32(v)) for v in P]
+        Q = [float(np.float32(v)) for v in Q]
     base = [2, math.e, 10.0, 1.5, 2.0][int(rng.integers(0, 5))]
     bad = None
     v = rng.random()
     if v < 0.06:
         bad = 'negative'
-        P = list(P)
+        P = [float(x) for x in P]
         P[0] = -P[0] if P[0] != 0 else -0.25
     elif v < 0.12:
         bad = 'shape'
-        Q = Q + [0.0]
-    return {'kind': 'kl', 'P': P, 'Q': Q, 'base': base, 'rel': rel, 'bad': bad, 'default_base': bool(rng.random() < 0.3)}
+        Q = list(Q) + [0.0]
+    return {'kind': 'kl', 'P': P, 'Q': Q, 'base': base, 'rel': rel, 'bad': bad, 'container': container,
+            'default_base': bool(rng.random() < 0.3)}
+
+
+def kl_args(case):
+    c = case.get('container', 'ndarray')
+    if c == 'list':
+        return list(case['P']), list(case['Q'])
+    if c == 'tuple':
+        return tuple(case['P']), tuple(case['Q'])
+    if c == 'float32':
+        return np.array(case['P'], dtype=np.float32), np.array(case['Q'], dtype=np.float32)
+    return np.array(case['P']), np.array(case['Q'])
 
 
 def check_kl(ctx, case, model):
     from enspara.info_theory import entropy
     P, Q = case['P'], case['Q']
+    tol = 1e-5 if case.get('container') == 'float32' else TOL
     ctx.case(case, nontrivial=len(P) > 1, tags=['kl', 'kl-' + (case['bad'] or case['rel']),
+                                                'kl-container=' + case.get('container', 'ndarray'),
                                                 'base=%s' % ('default' if case['default_base'] else
                                                              ('e' if case['base'] == math.e else case['base']))])
+    aP, aQ = kl_args(case)
+    snap = (repr(aP), repr(aQ))
     try:
         with warnings.catch_warnings():
             warnings.simplefilter('ignore')
             if case['default_base']:
-                d = entropy.kl_divergence(np.array(P), np.array(Q))
+                d = entropy.kl_divergence(aP, aQ)
+                d2 = entropy.kl_divergence(aP, aQ)
             else:
-                d = entropy.kl_divergence(np.array(P), np.array(Q), base=case['base'])
-        got = {'ok': float(d)}
+                d = entropy.kl_divergence(aP, aQ, base=case['base'])
+                d2 = entropy.kl_divergence(P=aP, Q=aQ, base=case['base'])
+        got = {'ok': float(d), 'again': float(d2)}
     except BaseException as e:  # noqa
         got = {'error': ERR_KIND.get(type(e).__name__, type(e).__name__)}
     base = 2 if case['default_base'] else case['base']
@@ -1101,22 +1507,42 @@ def check_kl(ctx, case, model):
         ctx.violation('kl_divergence raised %s on probability distributions' % got['error'], case)
         return
     d = got['ok']
+    if snap != (repr(aP), repr(aQ)) or not (got['again'] == d or (math.isnan(d) and math.isnan(got['again']))):
+        ctx.violation('kl_divergence modified its arguments / gave a different result on the second call', case)
+        return
     if math.isnan(d) or not (d >= -1e-12):
         ctx.violation('relative entropy is negative / nan: %r' % d, case)
         return
     l1 = sum(abs(a - b) for a, b in zip(P, Q))
-    if P == Q and abs(d) > 1e-12:
+    if list(P) == list(Q) and abs(d) > 1e-12:
         ctx.violation('relative entropy of equal distributions is %r, not 0' % d, case)
         return
     if l1 > 1e-3 and not (d > 0):
         ctx.violation('relative entropy of different distributions (L1 distance %r) is %r, not > 0' % (l1, d), case)
         return
-    # reference: sum p log(p/q) / log(base)
+    if case['rel'] == 'near-1e-6':
+        # distributions that differ by a relative 1e-6: KL ~ 1e-12, far above the rounding noise (~1e-16)
+        ref = math.fsum(p * -math.log1p((q - p) / p) for p, q in zip(P, Q)) / math.log(base)
+        # (rounding noise of sum p log(p/q): a few 1e-16)
+        if (ref > 1e-14 and not (d > 0)) or abs(d - ref) > 1e-2 * abs(ref) + 1e-15:
+            ctx.violation('relative entropy of nearly equal distributions is %r, expected %r (> 0)' % (d, ref), case)
+        return
+    if case['rel'] == 'near-1e-9':
+        # KL ~ 1e-18 is below the rounding noise of the formula: only the sign slack and the size are checked
+        if abs(d) > 1e-12:
+            ctx.violation('relative entropy of distributions equal to 1e-9 is %r' % d, case)
+        return
+    # reference: sum p (log p - log q) / log(base)
     if any(p > 0 and q == 0 for p, q in zip(P, Q)):
         ref = math.inf
     else:
-        ref = sum(p * math.log(p / q) for p, q in zip(P, Q) if p > 0) / math.log(base)
-    if not (d == ref or close(d, ref)):
+        ref = math.fsum(p * (math.log(p) - math.log(q)) for p, q in zip(P, Q) if p > 0) / math.log(base)
+    with np.errstate(all='ignore'):
+        ratios = [np.float64(p) / np.float64(q) for p, q in zip(P, Q) if p > 0 and q > 0]
+    if any(math.isinf(r) or r == 0 for r in ratios):
+        ctx.skip('kl: p/q overflows a double (denormal q): value not compared, laws checked')
+        return
+    if not (d == ref or close(d, ref, tol)):
         ctx.violation('kl_divergence = %r differs from sum p log_base(p/q) = %r' % (d, ref), case)
         return
     if model.get('ok') == 'inf':
@@ -1126,7 +1552,7 @@ def check_kl(ctx, case, model):
     else:
         ctx.disagreement('Model.Info.klTerms failed: %s' % _short(model), case)
         return
-    if not (mv == d or close(mv, d)):
+    if not (mv == d or close(mv, d, tol)):
         ctx.disagreement('Model.Info.klTerms vs kl_divergence: %r vs %r' % (mv, d), case)
 
 
@@ -1155,32 +1581,59 @@ def check_kl_rows(ctx, cases):
                           {'kind': 'kl2d', 'P': P.tolist(), 'Q': Q.tolist()})
 
 
-def gen_entropy_case(rng):
+ENT_FAMILIES = ['counts', 'dist', 'counts-int', 'scaled-1e-300', 'scaled-1e-320', 'scaled-1e-9', 'scaled-1e9',
+                'scaled-1e300', 'one-state', 'tiny-entry', 'counts-list']
+
+
+def gen_entropy_case(rng, idx=None):
     n = int(rng.integers(1, 8))
-    if rng.random() < 0.5:
-        p = [float(v) for v in rng.integers(0, 20, size=n)]
-        if sum(p) == 0:
-            p[0] = 1.0
-        normalize = True
-    else:
+    fam = ENT_FAMILIES[idx % len(ENT_FAMILIES)] if idx is not None else str(rng.choice(['counts', 'dist']))
+    normalize = True
+    counts = [float(v) for v in rng.integers(0, 20, size=n)]
+    if sum(counts) == 0:
+        counts[0] = 1.0
+    if fam == 'dist':
         p = gen_dist(rng, n)
         normalize = bool(rng.random() < 0.5)
-    return {'kind': 'entropy', 'p': p, 'normalize': normalize}
+    elif fam.startswith('scaled-'):
+        p = [v * float(fam[len('scaled-'):]) for v in counts]     # H(normalised) must not depend on the scale
+    elif fam == 'one-state':
+        p = [0.0] * n                     # a feature that never changes state: H = 0
+        p[int(rng.integers(0, n))] = float(rng.choice([1.0, 17.0]))
+        normalize = bool(rng.random() < 0.7) or max(p) != 1.0
+    elif fam == 'tiny-entry':
+        p = gen_dist(rng, max(n, 2), zeros=False)
+        p[0] = float(rng.choice([1e-300, 5e-324, 1e-200]))
+        normalize = bool(rng.random() < 0.5)
+    else:
+        p = counts
+    return {'kind': 'entropy', 'p': p, 'normalize': normalize, 'family': fam}
 
 
 def check_entropy(ctx, case, model):
     from enspara.info_theory import entropy
-    p = np.array(case['p'], dtype=float)
-    snap = p.tobytes()
-    ctx.case(case, nontrivial=len(case['p']) > 1, tags=['shannon_entropy',
+    fam = case.get('family', 'counts')
+    if fam == 'counts-int':
+        p = np.array([int(v) for v in case['p']], dtype=str(ctx.rng.choice(['int64', 'int32', 'uint8', 'uint32'])))
+    elif fam == 'counts-list' and case['normalize']:
+        p = [float(v) for v in case['p']]
+    else:
+        p = np.array(case['p'], dtype=float)
+    snap = repr(p) if isinstance(p, list) else p.tobytes()
+    ctx.case(case, nontrivial=len(case['p']) > 1, tags=['shannon_entropy', 'entropy-' + fam,
                                                          'normalize' if case['normalize'] else 'as-is'])
-    ok, H = guarded(ctx, 'shannon_entropy', case, lambda: float(entropy.shannon_entropy(p, normalize=case['normalize'])))
+    ok, res = guarded(ctx, 'shannon_entropy', case, lambda: (
+        float(entropy.shannon_entropy(p, normalize=case['normalize'])),
+        float(entropy.shannon_entropy(p, normalize=case['normalize']))))
     if not ok:
         return
-    q = p / p.sum() if case['normalize'] else p
-    ref = float(-sum(x * math.log(x) for x in q if x > 0))
-    if p.tobytes() != snap:
-        ctx.violation('shannon_entropy modified its argument', case)
+    H, H2 = res
+    pf = [float(v) for v in case['p']]
+    tot = math.fsum(pf)
+    q = [v / tot for v in pf] if case['normalize'] else pf
+    ref = float(-math.fsum(x * math.log(x) for x in q if x > 0))
+    if (repr(p) if isinstance(p, list) else p.tobytes()) != snap or H2 != H:
+        ctx.violation('shannon_entropy modified its argument / gave a different result on the second call', case)
         return
     if not close(H, ref):
         ctx.violation('shannon_entropy = %r differs from -sum p log p = %r' % (H, ref), case)
@@ -1195,6 +1648,18 @@ def check_entropy(ctx, case, model):
 
 
 def gen_sweep(rng, k):
+    if k % 8 == 3:
+        # more than 65535 frames in one cell (the counts are uint32): one or two features, one or two states
+        return {'kind': 'sweep', 'seed': int(rng.integers(0, 2 ** 31)), 'T': int(rng.choice([65536, 70000, 140000])),
+                'Fa': int(rng.integers(1, 3)), 'Fb': int(rng.integers(1, 3)), 'na': int(rng.integers(1, 3)),
+                'nb': int(rng.integers(1, 3)), 'dta': DTYPES[(k // 8) % 8], 'dtb': DTYPES[(k // 8) % 8],
+                'layout': str(rng.choice(LAYOUTS)), 'family': 'long-trajectory'}
+    if k % 8 == 6:
+        # more features than any thread count / than 255
+        return {'kind': 'sweep', 'seed': int(rng.integers(0, 2 ** 31)), 'T': int(rng.choice([30, 100])),
+                'Fa': int(rng.choice([256, 300, 513])), 'Fb': int(rng.integers(1, 4)), 'na': 2, 'nb': 3,
+                'dta': DTYPES[(k // 8) % 8], 'dtb': str(rng.choice(DTYPES)),
+                'layout': str(rng.choice(LAYOUTS)), 'family': 'many-features'}
     T = int(rng.choice([200, 700, 2000]))
     return {'kind': 'sweep', 'seed': int(rng.integers(0, 2 ** 31)), 'T': T,
             'Fa': int(rng.integers(8, 41)), 'Fb': int(rng.integers(1, 13)),
@@ -1247,7 +1712,8 @@ def run_sweep(d):
 def check_sweep(ctx, d, got):
     if not_run(ctx, got):
         return
-    ctx.case(d, nontrivial=True, tags=['thread-sweep', 'dtype-x=' + d['dta'], 'layout-x=' + d['layout']])
+    ctx.case(d, nontrivial=True, tags=['thread-sweep', 'sweep-' + d.get('family', 'large-table'),
+                                       'dtype-x=' + d['dta'], 'layout-x=' + d['layout']])
     if 'crash' in got:
         ctx.violation('joint_counts on a valid stream crashed or hung the process (%s)' % got['crash'], d)
         return
@@ -1292,7 +1758,23 @@ def sched_check(ctx, cases):
 def jc_pipeline(ctx, cases, n_mi, n_sched):
     """valid streams: kernel calls in the child; tables vs brute force vs model; MI laws on the real tables.
     Returns False when the kernel crashed (then nothing else is run in this process)."""
-    resp = ctx.driver([jc_request(c) for c in cases])
+    def table_cells(c):
+        nx = c.get('n_x') or (max(max(r) for r in c['X']['rows']) + 1)
+        ny = nx if c.get('Y') is None else (c.get('n_y') or (max(max(r) for r in c['Y']['rows']) + 1))
+        return c['X']['F'] * (c['X']['F'] if c.get('Y') is None else c['Y']['F']) * nx * ny
+    def cheap(c):
+        # the model's table is a closure over the schedule: a lookup costs O(#steps)
+        steps = c['X']['T'] * c['X']['F'] * (c['X']['F'] if c.get('Y') is None else c['Y']['F'])
+        return table_cells(c) * max(1, steps) <= 400000
+    for_model = [c for c in cases if cheap(c)]
+    it = iter(ctx.driver([jc_request(c) for c in for_model]))
+    resp = []
+    for c in cases:
+        if cheap(c):
+            resp.append(next(it))
+        else:
+            ctx.tag('model-skipped-big-table')      # the closure-based model table is too slow for n ~ 70000
+            resp.append(None)
     got = run_in_child(cases)
     tables = []
     crashed = False
@@ -1328,9 +1810,10 @@ def run(ctx):
         times[k] = round(time.time() - t0, 2)
         t0 = time.time()
     # 1. valid streams: table == brute force == model; then the MI laws on the real table
-    cases = [gen_jc_case(rng, i) for i in range(ctx.n(260, 8000))]
+    cases = [gen_jc_case(rng, i) for i in range(ctx.n(230, 8000))]
     cases += [gen_wide_case(rng) for _ in range(ctx.n(40, 400))]
-    ok, _ = jc_pipeline(ctx, cases, ctx.n(110, 3000), ctx.n(80, 2000))
+    cases += [gen_jc_special(rng, i) for i in range(ctx.n(24, 300))]
+    ok, _ = jc_pipeline(ctx, cases, ctx.n(90, 3000), ctx.n(60, 2000))
     lap('jc+mi-laws+sched')
     if not ok:
         # the compiled kernel crashed / hung on a valid stream (violations recorded): stop here
@@ -1363,13 +1846,18 @@ def run(ctx):
         ctx.note('section_seconds', times)
         return
     # 4. mi_matrix: pooled counts
-    mm = [gen_mi_matrix_case(rng) for _ in range(ctx.n(60, 1500))]
-    resp = ctx.driver([mi_matrix_request(c) for c in mm])
-    for c, r in zip(mm, resp):
-        check_mi_matrix(ctx, c, r)
+    mm = [gen_mi_matrix_case(rng, i) for i in range(ctx.n(64, 1600))]
+    small = [c for c in mm if max(int(np.max(c['n_x'])), int(np.max(c['n_y']))) <= 16]
+    resp = iter(ctx.driver([mi_matrix_request(c) for c in small]))
+    for c in mm:
+        if max(int(np.max(c['n_x'])), int(np.max(c['n_y']))) <= 16:
+            check_mi_matrix(ctx, c, next(resp))
+        else:
+            ctx.tag('model-skipped-big-table')       # the closure-based model table is too slow for n ~ 300
+            check_mi_matrix(ctx, c, None)
     lap('mi_matrix')
     # 5. weighted_mi
-    wm = [gen_wmi_case(rng) for _ in range(ctx.n(100, 2000))]
+    wm = [gen_wmi_case(rng, i) for i in range(ctx.n(88, 2200))]
     resp = ctx.driver([wmi_request(c) for c in wm])
     for c, r in zip(wm, resp):
         check_wmi(ctx, c, r)
@@ -1381,12 +1869,12 @@ def run(ctx):
         check_ccn(ctx, c, r)
     lap('ccn')
     # 7. relative entropy, Shannon entropy
-    kl = [gen_kl_case(rng) for _ in range(ctx.n(250, 6000))]
+    kl = [gen_kl_case(rng, i) for i in range(ctx.n(264, 6160))]
     resp = ctx.driver([kl_request(c) for c in kl])
     for c, r in zip(kl, resp):
         check_kl(ctx, c, r)
     check_kl_rows(ctx, kl)
-    en = [gen_entropy_case(rng) for _ in range(ctx.n(120, 3000))]
+    en = [gen_entropy_case(rng, i) for i in range(ctx.n(132, 3080))]
     resp = ctx.driver([entropy_request(c) for c in en])
     for c, r in zip(en, resp):
         check_entropy(ctx, c, r)
@@ -1433,7 +1921,8 @@ def replay(ctx, data):
     elif kind == 'b1d':
         check_b1d(ctx, base, run_in_child([base])[0], ctx.driver([b1d_request(base)])[0])
     elif kind == 'mi_matrix':
-        check_mi_matrix(ctx, base, ctx.driver([mi_matrix_request(base)])[0])
+        big = max(int(np.max(base['n_x'])), int(np.max(base['n_y']))) > 16
+        check_mi_matrix(ctx, base, None if big else ctx.driver([mi_matrix_request(base)])[0])
     elif kind == 'wmi':
         check_wmi(ctx, base, ctx.driver([wmi_request(base)])[0])
     elif kind == 'ccn':
